@@ -26,6 +26,9 @@ pub struct Workload {
     pub pre: bool,
     /// Which files go through the preprocessor ("" = all of them).
     pub pre_glob: &'static str,
+    /// Only explicitly named files (2-8 of them), no directory: the command line then decides
+    /// by itself whether files are memory-mapped - the same way for every thread count.
+    pub explicit_only: bool,
     /// Flags that must not change the permutation property (same flags in
     /// the single-threaded reference and in the scheduled runs).
     pub extra_flags: Vec<String>,
@@ -43,12 +46,36 @@ pub fn gen_workload(sub: u64) -> Workload {
             corpus.files.push((format!("m{}/t{i}.txt", i % 7), c));
         }
     }
+    let explicit_only = rng.chance(1, 8);
+    if explicit_only {
+        corpus.files.clear();
+        let ne = 2 + rng.below(7);
+        for i in 0..ne {
+            let nl = 3 + rng.below(30);
+            let mut c = gen_text(&mut rng, nl, 4);
+            match rng.below(4) {
+                0 => c.extend_from_slice(b"foo first \0 foo second on the same line\nfoo afterwards\n"),
+                1 => {
+                    // a NUL beyond the first 64 KiB, in a line that does not match
+                    while c.len() < 66_000 {
+                        c.extend_from_slice(b"filler line without the word, filler line without the word, filler\n");
+                        if c.len() % 7 == 0 {
+                            c.extend_from_slice(b"foo in the long part\n");
+                        }
+                    }
+                    c.extend_from_slice(b"some binary \0 here\nfoo after the nul\n");
+                }
+                _ => {}
+            }
+            corpus.files.push((format!("../x/e{i}.txt"), c));
+        }
+    }
     // Sometimes: files named explicitly next to the traversed directory, and
     // binary files (a match, later a NUL) among the traversed ones. Explicit
     // files are searched with a different binary-detection mode than traversed
     // ones; a worker handles both kinds in one run.
-    let mut explicit = vec![];
-    if rng.chance(1, 3) {
+    let mut explicit: Vec<String> = if explicit_only { corpus.files.iter().map(|(p, _)| p.trim_start_matches("../").to_string()).collect() } else { vec![] };
+    if !explicit_only && rng.chance(1, 3) {
         let ne = 1 + rng.below(2);
         for i in 0..ne {
             let nl = 3 + rng.below(20);
@@ -84,7 +111,7 @@ pub fn gen_workload(sub: u64) -> Workload {
         None
     };
     let (open_fault, read_fault) = if explicit.is_empty() { (open_fault, read_fault) } else { (None, None) };
-    let pre = rng.chance(1, 5) && mode != "files";
+    let pre = rng.chance(1, 5) && mode != "files" && !explicit_only;
     let pre_glob = ["f1*.txt", "f1*.txt", "*.txt", ""][rng.below(4)];
     let mut extra_flags = vec![];
     for f in ["--line-buffered", "--block-buffered", "--no-mmap", "--mmap", "-i", "--column", "--no-ignore", "--hidden", "-a", "--trim", "--no-unicode", "-U", "-U", "-z", "-Elatin1"] {
@@ -96,7 +123,7 @@ pub fn gen_workload(sub: u64) -> Workload {
     if mode == "json" || mode == "files" {
         extra_flags.retain(|f| f != "--column" && f != "--trim");
     }
-    Workload { corpus, mode, threads, open_fault, read_fault, explicit, pre, pre_glob, extra_flags }
+    Workload { corpus, mode, threads, open_fault, read_fault, explicit, pre, pre_glob, explicit_only, extra_flags }
 }
 
 fn args_for(w: &Workload, threads: usize) -> Vec<String> {
@@ -132,7 +159,10 @@ fn args_for(w: &Workload, threads: usize) -> Vec<String> {
         let ml = w.extra_flags.iter().any(|f| f == "-U");
         a.push(if ml && w.corpus.files.len() % 3 != 0 { ["foo\\s+\\w", "foo[^z]*?\\n"][w.corpus.files.len() % 2] } else { "foo" }.into());
     }
-    if w.explicit.is_empty() {
+    if w.explicit_only {
+        a.retain(|f| f != "--mmap" && f != "--no-mmap");
+        a.extend(w.explicit.iter().cloned());
+    } else if w.explicit.is_empty() {
         a.push("w".into());
     } else if w.threads % 2 == 0 {
         a.extend(w.explicit.iter().cloned());
@@ -412,13 +442,27 @@ pub fn run_workload(sub: u64, only_seed: Option<u64>, acc: &mut Acc, ctx: &Ctx, 
     let root = ctx.root();
     w.corpus.materialise(&root);
     let cwd = ctx.scratch.path().to_path_buf();
-    let plan: Vec<String> = match (&w.open_fault, &w.read_fault) {
+    let mut plan: Vec<String> = match (&w.open_fault, &w.read_fault) {
         (Some(p), _) => vec![format!("open_err=/w/{p}:13")],
         (None, Some((p, j))) => vec![format!("read_err=/w/{p}:{j}:5"), "read_frag=3".into()],
         _ => vec!["noop=1".into()],
     };
+    if rng.chance(1, 6) {
+        // the stat of two files fails once they are open (in the reference run and in every
+        // scheduled run alike): a lost size hint must not make a file's block depend on what
+        // the same worker searched before
+        for _ in 0..2 {
+            let v = &w.corpus.files[rng.below(w.corpus.files.len())].0;
+            if !v.starts_with("../") {
+                plan.push(format!("fstat_err=/w/{v}:5"));
+            }
+        }
+    }
     acc.mix.inc(&format!("mode:{}", w.mode));
     acc.mix.inc(&format!("threads:{}", w.threads));
+    if plan.iter().any(|p| p.starts_with("fstat_err")) {
+        acc.mix.inc("fstat-of-opened-files-fails");
+    }
     for f in &w.extra_flags {
         acc.mix.inc(&format!("flag:{f}"));
     }
